@@ -43,7 +43,7 @@ STATE = {"sched": Sched(), "events": [], "inflight": 0, "max_inflight": 0, "orde
 
 
 def reset(choices=()):
-    STATE.update(sched=Sched(choices), events=[], inflight=0, max_inflight=0, order=0, waits=0, sleeps=0, rounds=0, all_complete=False, budget_hit=None)
+    STATE.update(sched=Sched(choices), events=[], inflight=0, max_inflight=0, order=0, waits=0, sleeps=0, rounds=0, all_complete=False, budget_hit=None, lagging=False)
 
 
 class BudgetExceeded(Exception):
@@ -137,6 +137,8 @@ class FakeAsyncio:
             c = s.next(4)          # 0: stays queued, 1: becomes visibly running, 2: completes too, 3: runs to its end but reports later
             if STATE.get("all_complete"):
                 c = 2              # restricted schedules: every submitted job completes before the next wake-up
+            elif STATE.get("lagging"):
+                c = 3 if c >= 2 else 0       # polling-worker schedules: jobs finish on disk before their future is reported
             if c == 1:
                 t.make_visible()
             elif c == 2:
